@@ -12,6 +12,8 @@ def run(chk):
     nametables.run(chk, "a64", "asmjit/arm/a64instdb.cpp", "asmjit/arm/a64instapi.cpp")
     # C13.c validation hook placement
     hook_rule(chk)
+    # C13.d operand-flag translation of vector-index memory operands in the x86 validator
+    vm_flags_rule(chk)
     return chk.finish(
         level="other",
         explanation=("(a) the generated signature/name/RW tables regenerate byte-identically from db/; (b) for every instruction id of both "
@@ -87,3 +89,50 @@ def hook_rule(chk):
             chk.ob(R, name + "|failure-reaches-error-exit", ok_fail, loc=fn.loc(h),
                    detail="a non-kOk validation result can still reach the success exit")
     chk.floor(R + ":hooks", n, 2)
+
+
+def vm_flags_rule(chk):
+    R = "R-VM-FLAGS"
+    chk.rule(R, "x86 validate(): on the path where the memory operand's index register type equals RegType::kVec128 / kVec256 / kVec512 the "
+                "operand flags gain exactly {kVm32x,kVm64x} / {kVm32y,kVm64y} / {kVm32z,kVm64z} (values from InstDB::OpFlags): the validator "
+                "matches the same vm forms the database signatures are generated with")
+    unit = "asmjit/x86/x86instapi.cpp"
+    f = chk.facts(unit, funcs=r"asmjit::x86::InstInternal::validate$|asmjit::x86::[A-Za-z_]*validate[A-Za-z_]*$", enums=r"asmjit::x86::InstDB::OpFlags$|asmjit::RegType$")
+    en = f["enums"].get("asmjit::x86::InstDB::OpFlags")
+    chk.need(en is not None, "enum x86::InstDB::OpFlags not found")
+    ev = {n: v for n, v in en["enumerators"]}
+    want = {"kVec128": ev["kVm32x"] | ev["kVm64x"], "kVec256": ev["kVm32y"] | ev["kVm64y"], "kVec512": ev["kVm32z"] | ev["kVm64z"]}
+    vmmask = 0
+    for n in ("kVm32x", "kVm64x", "kVm32y", "kVm64y", "kVm32z", "kVm64z"):
+        vmmask |= ev[n]
+    nsite = 0
+    for fn in cfg.load_functions(f):
+        def edge_fx(b, si, atom, holds, fn=fn):
+            x = fn.e(atom)
+            if x and x["k"] == "binop" and x["op"] in ("==", "!=") and (x["op"] == "==") == holds:
+                for a, c in ((x["lhs"], x["rhs"]), (x["rhs"], x["lhs"])):
+                    cx = fn.e(fn.strip(c))
+                    ax = fn.e(fn.strip(a))
+                    if cx is not None and cx.get("cvn") in want and ax is not None and ax["k"] == "ref" and "index" in ax.get("name", ""):
+                        return [("index-is", cx["cvn"])]
+            return ()
+        m = Must(fn, None, edge_fx)
+        for i, x in sorted(fn.ex.items()):
+            if x["k"] not in ("binop", "opcall") or "|=" not in (x.get("op") or ""):
+                continue
+            r = x.get("rhs") if x["k"] == "binop" else (x.get("args") or [None])[-1]
+            rx = fn.e(fn.strip(r)) if r else None
+            val = rx.get("cv") if rx else None
+            if isinstance(val, str) and val.isdigit():
+                val = int(val)
+            if not isinstance(val, int) or not (val & vmmask):
+                continue
+            st = m.before(i) or frozenset()
+            which = [f_[1] for f_ in st if f_[0] == "index-is"]
+            nsite += 1
+            ok = len(which) == 1 and val == want[which[0]]
+            chk.ob(R, "validate|index=%s" % (which[0] if which else "?"), ok, loc=fn.loc(i),
+                   detail="`%s` adds vm flags 0x%X under index type %s; the matching pair is 0x%X" % (" ".join(fn.text(i).split())[:70], val, which or "unknown",
+                                                                                                 want[which[0]] if len(which) == 1 else 0),
+                   key="vmflags|%s" % (which[0] if which else "?"))
+    chk.floor(R + ":sites", nsite, 3)
